@@ -1,6 +1,7 @@
 ------------------------------ MODULE GridCases ------------------------------
 EXTENDS Integers, Sequences, FiniteSets
-(* keys: kind 1 = rate a of node 1, 2 = constant c of all nodes, 3 = weight of edge 1, 4 = rate a of nodes 1 and 2 *)
+(* keys: kind 1 = rate a of node 1, 2 = constant c of all nodes, 3 = weight of edge 1, 4 = rate a of nodes 1 and 2,
+   5 = delay of edge 1 (|value| steps; model 3 = model 1 with a delayed first edge): <<3, 5>> updates two attributes of one edge *)
 KeySets == {<<1>>, <<3>>, <<2>>, <<1, 3>>, <<4, 3>>, <<2, 1>>}
 ValLists(n) == IF n = 2 THEN {<<-2, -4>>, <<2, 6>>} ELSE {<<-2, -4, -6>>, <<2, 6, 4>>}
 Perm3 == {<<2, 0, 1>>, <<1, 2, 0>>}
@@ -14,4 +15,9 @@ GridCases(models) ==
   \cup \* tables with re-ordered integer row labels
   { [vals |-> [k \in 1..Len(ks) |-> v], permute |-> FALSE, index |-> ix, keys |-> ks, model |-> m, vec |-> TRUE, inp |-> FALSE] :
       ks \in KeySets, v \in ValLists(3), ix \in Perm3, m \in models }
+EdgeAttrCases ==
+  { [vals |-> [k \in 1..Len(ks) |-> v], permute |-> FALSE, index |-> <<>>, keys |-> ks, model |-> 3, vec |-> ve, inp |-> FALSE] :
+      ks \in {<<5>>, <<3, 5>>, <<5, 3>>}, v \in ValLists(3), ve \in BOOLEAN }
+  \cup { [vals |-> <<v2, v3>>, permute |-> TRUE, index |-> <<>>, keys |-> ks, model |-> 3, vec |-> ve, inp |-> FALSE] :
+      ks \in {<<3, 5>>}, v2 \in ValLists(2), v3 \in ValLists(3), ve \in BOOLEAN }
 =============================================================================
